@@ -377,6 +377,14 @@ def fixed_grid(ctx):
                         {'ast': R._fix(other), 'choice': [2], 'method': 'GET', 'attach': 'PUT' if flags[1] else None}]
                 ctx.guarded(check_case, {'regs': regs[::-1] if order else regs, 'spell': 0, 'paths': ps})
     ctx.count('fixed_grid_stripped_and_attached')
+    # a path wildcard followed by several literal segments that recur in the path; text that Unicode normalisation would rewrite (values and literals), through the application too
+    for rs, ps in (([[L('/f/'), W('p', 'path'), L('/a/a/'), W('q')]], ['/f/x/a/a/y', '/f/x/a/a/a/y', '/f/a/a/a/a/z', '/f/x/a/b/a/a/y']),
+                   ([[L('/g/'), W('p', 'path'), L('/ed/it/'), W('q', 'path')]], ['/g/a/ed/it/x/ed/y', '/g/a/ed/x/ed/it/z', '/g/ed/it/ed/it/ed']),
+                   ([[L('/h/'), W('p', 'path'), L('/x/y/z')]], ['/h/a/x/y/z', '/h/a/x/b/x/y/z', '/h/x/y/x/y/z']),
+                   ([[L('/n/'), W('v')], [L('/\u212b/'), W('v')], [L('/e\u0301/x')]], ['/n/e\u0301', '/n/\u2126', '/n/A\u030a', '/\u212b/1', '/\u00c5/1', '/e\u0301/x', '/\u00e9/x', '/n/\u00e9'])):
+        for spell in (0, 1):
+            ctx.guarded(check_case, {'regs': [{'ast': R._fix(a), 'choice': [2], 'method': 'GET'} for a in rs], 'spell': spell, 'paths': ps})
+    ctx.count('fixed_grid_recurring_literals_and_normalisable_text')
 
 
 def run(ctx):
